@@ -59,28 +59,42 @@ CUpd(m, e) ==
     [] OTHER -> m
 
 \* ---------------------------------------------------------------- (B) handles
-\* keys and their kinds come with the session; val = value in force per key; pend = written since last callback
-HInit(keys, init) == [ val |-> init, pend |-> [k \in keys |-> "none"] ]
+\* One key = one command kind of one resource.  Level keys are observed as the value in force after
+\* the callback.  The jump key of a sound carries seek_to ([k |-> "abs", x |-> frame]) or seek_by
+\* ([k |-> "rel", x |-> frames]) - two command kinds that act on the same observable, so the drivers
+\* write only one of the two kinds between two callbacks - and is observed as the last source frame
+\* heard in the callback (obs), next to the frame that would have been heard last had nothing been
+\* written (cont); a seek may take up to the interpolator's four frames to be heard (C04), hence the
+\* window [-4, +1] around the expected frame.
+\* pend[k] = <<>> (nothing written since the last callback) or <<v>> (the last value written)
+HInit(init) == [ val |-> init, pend |-> [k \in DOMAIN init |-> <<>>] ]
 
-Jump(k) == k.kind = "jump"
+Expected(m, e, k) ==
+  IF e.jump[k] = "no" THEN (IF m.pend[k] = <<>> THEN m.val[k] ELSE m.pend[k][1])
+  ELSE IF m.pend[k] = <<>> THEN e.cont[k]
+  ELSE IF m.pend[k][1].k = "abs" THEN m.pend[k][1].x + e.n - 1      \* seek_to(frame x)
+  ELSE e.cont[k] + m.pend[k][1].x                                    \* seek_by(x frames)
+
+Wrong(m, e) ==
+  { k \in DOMAIN m.val :
+      IF e.jump[k] = "no" THEN e.obs[k] # Expected(m, e, k)
+      ELSE e.obs[k] - Expected(m, e, k) > 1 \/ Expected(m, e, k) - e.obs[k] > 4 }
 
 HCheck(m, e) ==
   CASE e.a = "w" -> IF e.key \notin DOMAIN m.val THEN "harness_unknown_key" ELSE ""
     [] e.a = "cb" ->
          IF e.panicked THEN "no_panic"
-         ELSE LET wrong == { k \in DOMAIN m.val :
-                   LET exp == IF m.pend[k] = "none" THEN (IF e.jump[k] THEN 0 ELSE m.val[k]) ELSE m.pend[k]
-                   IN IF e.jump[k] THEN (e.obs[k] - exp > 1 \/ exp - e.obs[k] > 1) ELSE e.obs[k] # exp }
-              IN IF wrong = {} THEN ""
-                 ELSE LET k == CHOOSE x \in wrong : TRUE IN
-                      IF m.pend[k] = "none" THEN "no_effect_without_command_and_not_reapplied"
-                      ELSE "last_write_applied_at_next_callback"
+         ELSE IF Wrong(m, e) = {} THEN ""
+         ELSE LET k == CHOOSE x \in Wrong(m, e) : TRUE IN
+              IF m.pend[k] = <<>> THEN "no_effect_without_command_and_not_reapplied"
+              ELSE "last_write_applied_at_next_callback"
     [] e.a = "panic" -> "no_panic"
     [] OTHER -> ""
 
 HUpd(m, e) ==
-  CASE e.a = "w" -> [m EXCEPT !.pend[e.key] = e.v]
-    [] e.a = "cb" -> [m EXCEPT !.val = [k \in DOMAIN m.val |-> IF m.pend[k] = "none" \/ e.jump[k] THEN m.val[k] ELSE m.pend[k]],
-                               !.pend = [k \in DOMAIN m.val |-> "none"]]
+  CASE e.a = "w" -> [m EXCEPT !.pend[e.key] = <<e.v>>]
+    [] e.a = "cb" -> [m EXCEPT !.val = [k \in DOMAIN m.val |->
+                                         IF m.pend[k] = <<>> \/ e.jump[k] # "no" THEN m.val[k] ELSE m.pend[k][1]],
+                               !.pend = [k \in DOMAIN m.val |-> <<>>]]
     [] OTHER -> m
 =============================================================================
